@@ -9,7 +9,9 @@ THEOREMS = ["Helios.Ids.id_consistent", "Helios.Ids.supplied_unchanged", "Helios
             "Helios.Proxy.via_transparent"]
 VALUES = ["abc", " lead", "trail\t", "abc ", " abc", " \t ", " ", " ", "x" * 300, "id with spaces", "ünïcödé",
           "req_0123", "a,b", "%41", "-", "none", "none", "none"]
-HEADERS = [("-", "-"), ("-", "-"), ("X-Correlation-Id", "X-B3-Traceid"), ("x-my-req", "-"), (" X-Padded ", "traceparent")]
+HEADERS = [("-", "-"), ("-", "-"), ("X-Correlation-Id", "X-B3-Traceid"), ("x-my-req", "-"), (" X-Padded ", "traceparent"),
+           # every character RFC 7230 allows in a field name, not only letters, digits and '-'
+           ("X.Request.Id", "x-b3.traceid"), ("X_Req~1", "t!#$%&'*+^`|~9"), ("req.id", "-"), ("-", "trace.id")]
 
 
 def gen_episode(rng, long=False):
@@ -33,10 +35,32 @@ def gen_episode(rng, long=False):
     return ops
 
 
+TOKEN = set("!#$%&'*+-.^_`|~0123456789abcdefghijklmnopqrstuvwxyzABCDEFGHIJKLMNOPQRSTUVWXYZ")
+
+
+def canonical(name):
+    """net/http's canonical form of a header name (names with a byte outside the token set stay as they are)"""
+    if any(c not in TOKEN for c in name):
+        return name
+    out, up = [], True
+    for c in name:
+        out.append(c.upper() if up else c.lower())
+        up = c == "-"
+    return "".join(out)
+
+
 def oracle(ep, outs):
+    import urllib.parse
     fails = []
     w0 = C.op_lines(ep)[0].split()
     ron, ton = w0[2] == "1", w0[4] == "1"
+    if w0[:2] == ["id", "new"] and len(w0) == 8 and outs and outs[0].startswith("ok "):
+        used = [urllib.parse.unquote(x) for x in outs[0].split()[1:3]]
+        for cfgd, dflt, u, what in ((w0[3], "X-Request-ID", used[0], "request-ID"), (w0[5], "X-Trace-ID", used[1], "trace")):
+            name = ("" if cfgd == "-" else urllib.parse.unquote(cfgd)).strip(" \t\r\n")
+            want = canonical(name or dflt)
+            if u != want:
+                fails.append("the %s header in use is %r, the configuration names %r" % (what, u, want))
     for line, o in zip(C.op_lines(ep)[1:], outs[1:]):
         if line.startswith("id burst"):
             if "dups=0" not in o:
@@ -69,13 +93,19 @@ def wire_episodes(rng):
     eps = []
     for feats in ("s", "ls", "l", "-"):
         ep = ["px new round_robin 11 - %s" % feats]
-        for method, ops in (("GET", ["sh:Link:%s" % c01.enc("</s.css>; rel=preload"), "wh:103", "wh:200"]),
+        for method, ops, *hfix in (("GET", ["sh:Link:%s" % c01.enc("</s.css>; rel=preload"), "wh:103", "wh:200"]),
                             ("GET", ["wh:103", "sh:Content-Length:0", "wh:200"]),
                             ("HEAD", ["wh:103", "sh:Content-Length:5000", "wh:200"]),
                             ("GET", ["wh:103", "wh:204"]),
                             ("GET", ["wh:103", "wh:201", "w:10:3"]),
-                            ("GET", ["wh:200"]), ("GET", ["wh:404"]), ("HEAD", ["wh:200"])):
-            h = rng.choice([[], [("X-Request-Id", "client-77")], [("X-Trace-Id", "t-1")]])
+                            ("GET", ["wh:200"]), ("GET", ["wh:404"]), ("HEAD", ["wh:200"]),
+                            # a backend that echoes one of the two identifiers it was sent on its final answer, after an
+                            # interim one (the reverse proxy wipes the header map in between): the other one must not get lost
+                            ("GET", ["wh:103", "sh:X-Request-Id:client-77", "wh:200", "w:4:1"], [("X-Request-Id", "client-77")]),
+                            ("GET", ["wh:103", "sh:X-Trace-Id:t-1", "wh:200"], [("X-Trace-Id", "t-1")]),
+                            ("GET", ["sh:X-Request-Id:client-77", "wh:103", "wh:200"], [("X-Request-Id", "client-77"), ("X-Trace-Id", "t-1")]),
+                            ("GET", ["sh:X-Trace-Id:t-1", "wh:200"], [("X-Trace-Id", "t-1")])):
+            h = hfix[0] if hfix else rng.choice([[], [("X-Request-Id", "client-77")], [("X-Trace-Id", "t-1")]])
             for mode in ("direct", "via"):
                 ep.append("px x %s %s /p %s 0 cl %s" % (mode, method, c01.hdr_tok(h), ";".join(ops)))
         ep.append("px close")
@@ -99,6 +129,10 @@ def check(ctx):
     episodes += [["id new %s - %s - rid 0" % (a, b), "id burst %d %d" % (n, wk)] for a, b, n, wk in
                  (("0", "0", 20000 if not ctx.thorough() else 100000, 16), ("1", "1", 5000, 8), ("0", "1", 5000, 12))]
     bad = d.check(episodes, oracle=oracle, label="ids")
+    # header names the two features are configured with, judged at start-up: a usable name starts and serves with the
+    # identifier on the response, an unusable one is refused with an error that names it — per feature, whatever the other one is
+    from . import c18
+    d.check_oracle_only(c18.serve_episodes(ctx, names_only=True), c18.serve_oracle, "id-names")
     from . import c01
     we = wire_episodes(ctx.rng)
     C.Differential(ctx, binary, timeout=600, project=c01.project).check(we, oracle=c01.oracle, label="ids-wire")
